@@ -274,6 +274,7 @@ def write_batch_crate(crate_dir, batches, forbid_unsafe=True, macro_dep=False):
             main.append("#![forbid(unsafe_code)]")
         main.append("#![allow(warnings)]")
         arms = []
+        line_map = []  # (first line, last line, gidx) of each module inside main.rs
         for u in units:
             m = "g%d" % u["gidx"]
             rs = os.path.join(d, m + ".rs")
@@ -286,11 +287,15 @@ def write_batch_crate(crate_dir, batches, forbid_unsafe=True, macro_dep=False):
                              (rule, fn, rid(rule), post))
             main.append("mod %s {\n    include!(\"%s.rs\");\n%s\n    pub fn run(rule: &str, mode: vfrt::Mode, input: &str, budget: u64) -> bool {\n        match rule {\n%s\n            _ => false,\n        }\n    }\n}" %
                         (m, m, u.get("extra_rust", ""), "\n".join(rarms)))
+            first = sum(x.count("\n") + 1 for x in main[:-1]) + 1
+            line_map.append((first, first + main[-1].count("\n"), u["gidx"]))
             arms.append("        %d => %s::run(rule, mode, input, budget)," % (u["gidx"], m))
         main.append("fn dispatch(g: usize, rule: &str, mode: vfrt::Mode, input: &str, budget: u64) -> bool {\n    match g {\n%s\n        _ => false,\n    }\n}" % "\n".join(arms))
         main.append("fn main() { vfrt::main_seq(dispatch) }")
         with open(os.path.join(d, "main.rs"), "w") as f:
             f.write("\n".join(main) + "\n")
+        with open(os.path.join(d, "linemap.json"), "w") as f:
+            json.dump(line_map, f)
         bins.append('[[bin]]\nname = "%s"\npath = "%s/main.rs"\n' % (name, name))
     with open(os.path.join(crate_dir, "Cargo.toml"), "w") as f:
         f.write(BATCH_CARGO.format(repo=REPO, rust=RUST, bins="\n".join(bins),
@@ -315,6 +320,14 @@ def build_batch_crate(crate_dir, target_dir, rustflags, toolchain=None, extra=()
         elif m.get("reason") == "compiler-message" and m["message"].get("level") == "error":
             tname = m["target"]["name"]
             files = sorted({os.path.basename(s["file_name"]) for s in m["message"].get("spans", [])})
+            for s in m["message"].get("spans", []):
+                if os.path.basename(s["file_name"]) == "main.rs":
+                    lm_path = os.path.join(crate_dir, tname, "linemap.json")
+                    if os.path.exists(lm_path):
+                        with open(lm_path) as lf:
+                            for (a0, b0, gidx) in json.load(lf):
+                                if a0 <= s["line_start"] <= b0:
+                                    files.append("g%d.rs" % gidx)
             # expansion chains: include the outermost file too
             for s in m["message"].get("spans", []):
                 e = s.get("expansion")
